@@ -2,7 +2,7 @@
 import json
 import random
 
-from .. import flow, corr_bm, oracles_bm as ob
+from .. import core, flow, corr_bm, oracles_bm as ob
 
 PROOFS = ['Tsv.Proofs.BMCache', 'Tsv.Proofs.C07']
 TRUSTED = ["Lean 4.33 kernel + Mathlib", "Brownian model tied to the real class by per-query correspondence (incl. cache key order)",
@@ -18,7 +18,7 @@ def run(rep, tier, seed):
     rep.ob('correspondence:brownian-model', f"{c.get('configs', 0)} objects / {c.get('queries', 0)} queries", c['ok'],
            json.dumps(c.get('mismatches') or c.get('error', ''), default=str)[:1800])
     rep.cov['correspondence'] = {k: v for k, v in c.items() if k != 'mismatches'}
-    fails, st = ob.robustness_search(rng, 4 if tier == 'quick' else 60, [1500] if tier == 'quick' else [20000, 40000])
+    fails, st = core.safe(ob.robustness_search, rng, 4 if tier == 'quick' else 60, [1500] if tier == 'quick' else [20000, 40000])
     rep.ob('oracle:robustness-on-real-objects', f"{st['configs']} configs / {st['queries']} queries", not fails,
            json.dumps(fails[:1], default=str)[:1200])
     rep.cov['real_code_oracle'] = st
